@@ -43,7 +43,7 @@ type nativeRun struct {
 
 var nativeBins sync.Map // pkg path -> binary path or error string
 
-var harnessFuncRe = regexp.MustCompile(`(?m)^func (VerifH_\w+)\(\)`)
+var harnessFuncRe = regexp.MustCompile(`(?m)^func (Verif[HS]_\w+)\(\)`)
 
 // buildNative compiles a driver binary for one harness package.
 func buildNative(ld *loaded, spec *Spec, pkgPath string) (string, error) {
@@ -94,12 +94,10 @@ func buildNative(ld *loaded, spec *Spec, pkgPath string) (string, error) {
 		if m := regexp.MustCompile(`(?m)^package\s+(\w+)`).FindSubmatch(src); m != nil {
 			pkgName = string(m[1])
 		}
-		if bytes.Contains(src, []byte("//verif:replace")) {
-			// harnesses with environment replacements are not compiled natively:
-			// strip the file from the native build
-			delete(ov, dst)
-			continue
-		}
+		// Files with environment replacements are compiled natively too: their
+		// VerifH_ harnesses are never run natively (the stubs cannot be linked in),
+		// but they may define VerifS_ scenario functions that re-enact a
+		// counterexample through the real code.
 		for _, m := range harnessFuncRe.FindAllSubmatch(src, -1) {
 			names = append(names, string(m[1]))
 		}
@@ -135,8 +133,27 @@ func buildNative(ld *loaded, spec *Spec, pkgPath string) (string, error) {
 	return bin, nil
 }
 
+func harnessHasEnvReplace(ld *loaded, hs HarnessSpec) bool {
+	for dst, src := range ld.overlay {
+		if bytes.Contains(src, []byte("func "+hs.Func+"()")) {
+			_ = dst
+			return bytes.Contains(src, []byte("//verif:replace"))
+		}
+	}
+	return false
+}
+
+func harnessDefined(ld *loaded, fn string) bool {
+	for _, src := range ld.overlay {
+		if bytes.Contains(src, []byte("func "+fn+"()")) {
+			return true
+		}
+	}
+	return false
+}
+
 func runNative(bin string, env []string, timeout time.Duration) ([]nativeRun, string, error) {
-	cmd := exec.Command(bin)
+	cmd := exec.Command("/bin/sh", "-c", "ulimit -v 6000000; exec "+bin)
 	cmd.Env = append(os.Environ(), env...)
 	var out, errb bytes.Buffer
 	cmd.Stdout = &out
@@ -171,7 +188,11 @@ func runNative(bin string, env []string, timeout time.Duration) ([]nativeRun, st
 		return runs, errb.String(), fmt.Errorf("native run timed out after %s", timeout)
 	}
 	if werr != nil && len(runs) == 0 {
-		return runs, errb.String(), fmt.Errorf("native run failed: %v: %s", werr, errb.String())
+		es := errb.String()
+		if len(es) > 400 {
+			es = es[:400] + "…"
+		}
+		return runs, es, fmt.Errorf("native run failed: %v: %s", werr, es)
 	}
 	return runs, errb.String(), nil
 }
@@ -234,13 +255,31 @@ func replayNative(ld *loaded, spec *Spec, hs HarnessSpec, v *Violation, path str
 	if err != nil {
 		return false, err.Error()
 	}
-	js, _ := json.MarshalIndent(map[string]interface{}{"pkg": hs.Pkg, "harness": hs.Func, "kind": v.Kind, "msg": v.Msg, "where": v.Where, "nondets": v.Nondets, "tier": spec.Tier}, "", " ")
+	fn := hs.Func
+	scenario := false
+	if harnessHasEnvReplace(ld, hs) {
+		fn = "VerifS_" + strings.TrimPrefix(hs.Func, "VerifH_")
+		scenario = true
+		if !harnessDefined(ld, fn) {
+			return false, "harness uses environment stubs and defines no native scenario (" + fn + ")"
+		}
+	}
+	js, _ := json.MarshalIndent(map[string]interface{}{"pkg": hs.Pkg, "harness": hs.Func, "native_func": fn, "kind": v.Kind, "msg": v.Msg, "where": v.Where, "nondets": v.Nondets, "tier": spec.Tier}, "", " ")
 	os.MkdirAll(filepath.Dir(path), 0755)
 	os.WriteFile(path, js, 0644)
-	runs, stderr, err := runNative(bin, []string{"VERIF_MODE=replay", "VERIF_HARNESS=" + hs.Func, "VERIF_INPUT=" + path, fmt.Sprintf("VERIF_TIER=%d", spec.Tier)}, 60*time.Second)
+	mode := "replay"
+	if scenario {
+		mode = "scenario"
+	}
+	runs, stderr, err := runNative(bin, []string{"VERIF_MODE=" + mode, "VERIF_HARNESS=" + fn, "VERIF_INPUT=" + path, fmt.Sprintf("VERIF_TIER=%d", spec.Tier)}, 60*time.Second)
 	if err != nil {
-		if strings.Contains(err.Error(), "timed out") {
-			return v.Kind == "nontermination", "native run did not terminate"
+		if scenario {
+			// the real code did not survive the scenario: non-termination or a fatal runtime error
+			tail := stderr
+			if len(tail) > 300 {
+				tail = tail[:300]
+			}
+			return true, "native scenario " + fn + " did not complete: " + err.Error() + " " + tail
 		}
 		return false, err.Error() + stderr
 	}
@@ -248,6 +287,15 @@ func replayNative(ld *loaded, spec *Spec, hs HarnessSpec, v *Violation, path str
 		return false, "no native result"
 	}
 	r := runs[0]
+	if scenario {
+		if r.Failed {
+			return true, fmt.Sprintf("native scenario %s failed: %v", fn, r.Log)
+		}
+		if r.Panic != "" {
+			return true, "native scenario " + fn + " panicked: " + r.Panic
+		}
+		return false, fmt.Sprintf("native scenario %s passed (log %v)", fn, r.Log)
+	}
 	switch v.Kind {
 	case "panic":
 		return r.Panic != "", "native panic: " + r.Panic
@@ -275,6 +323,7 @@ import (
 	"math/rand"
 	"os"
 	"strconv"
+	"time"
 	"unsafe"
 )
 
@@ -294,8 +343,36 @@ var vSt struct {
 	rng    *rand.Rand
 	out    []vRec
 	log    []string
-	tier   int
-	failed bool
+	tier     int
+	failed   bool
+	scenario bool
+}
+
+// vReplayVal returns the k-th counterexample value recorded under tag (scenario
+// functions re-enact a counterexample through the public API and pick the
+// values they need by name).
+func vReplayVal(tag string, k int) (uint64, bool) {
+	for _, r := range vSt.in {
+		if r.Tag == tag {
+			if k == 0 {
+				return r.Val, true
+			}
+			k--
+		}
+	}
+	return 0, false
+}
+
+// vWithTimeout runs f and reports whether it returned within the limit.
+func vWithTimeout(f func(), seconds int) bool {
+	done := make(chan struct{})
+	go func() { defer close(done); f() }()
+	select {
+	case <-done:
+		return true
+	case <-time.After(time.Duration(seconds) * time.Second):
+		return false
+	}
 }
 
 var vHarnesses = map[string]func(){
@@ -495,7 +572,7 @@ func VerifNativeMain() {
 		fmt.Printf("VERIF-RUN %s\n", js)
 	}
 	switch os.Getenv("VERIF_MODE") {
-	case "replay":
+	case "replay", "scenario":
 		b, err := os.ReadFile(os.Getenv("VERIF_INPUT"))
 		if err != nil {
 			fmt.Fprintln(os.Stderr, err)
@@ -509,6 +586,7 @@ func VerifNativeMain() {
 			os.Exit(3)
 		}
 		vSt.in = in.Nondets
+		vSt.scenario = os.Getenv("VERIF_MODE") == "scenario"
 		r := vRunOnce(fn, 0)
 		emit(r)
 		if r.Failed || r.Panic != "" {
